@@ -504,4 +504,41 @@ theorem gmres_below_tol_means_solved (prm : GMRES.Params K) (ip : Vec K → Vec 
 
 end gmresOrdered
 
+/-! ### non-vacuity (second package): concrete runs over `ℚ` — a non-symmetric 2×2 system, a non-identity matrix
+preconditioner applied from the LEFT, non-zero initial guess, `sqrt := id`; GMRES(2) restarts once (3 iterations),
+FGMRES(1) restarts twice, LGMRES(1,1) uses an augmentation vector in its second cycle -/
+section nonvacuous2
+
+private def gmPrm : GMRES.Params ℚ :=
+  { maxiter := 3, tol := 0, abstol := 0, nsSearch := false, M := 2, pside := .left }
+private def fgPrm : FGMRES.Params ℚ := { maxiter := 3, tol := 0, abstol := 0, nsSearch := false, M := 1 }
+private def lgPrm : LGMRES.Params ℚ :=
+  { maxiter := 3, tol := 0, abstol := 0, nsSearch := false, M := 1, K' := 1, alwaysReset := true, pside := .left }
+
+example : ∃ it res x w, GMRES.solve gmPrm stdIp id 0 A₀ P₀ (GMRES.Work.fresh 2) #[1, 3] #[1, 0]
+    = .ok (it, res, x, w) ∧ it = 3 := by
+  have h : (match GMRES.solve gmPrm stdIp id 0 A₀ P₀ (GMRES.Work.fresh 2) #[1, 3] #[1, 0] with
+      | .ok (it, _, _, _) => decide (it = 3) | _ => false) = true := by decide +kernel
+  split at h
+  · exact ⟨_, _, _, _, ‹_›, of_decide_eq_true h⟩
+  · cases h
+
+example : ∃ it res x w, FGMRES.solve fgPrm stdIp id 0 A₀ P₀ (FGMRES.Work.fresh 2) #[1, 3] #[1, 0]
+    = .ok (it, res, x, w) ∧ it = 3 := by
+  have h : (match FGMRES.solve fgPrm stdIp id 0 A₀ P₀ (FGMRES.Work.fresh 2) #[1, 3] #[1, 0] with
+      | .ok (it, _, _, _) => decide (it = 3) | _ => false) = true := by decide +kernel
+  split at h
+  · exact ⟨_, _, _, _, ‹_›, of_decide_eq_true h⟩
+  · cases h
+
+example : ∃ it res x w, LGMRES.solve lgPrm stdIp id 0 A₀ P₀ (LGMRES.Work.fresh 2) #[1, 3] #[1, 0]
+    = .ok (it, res, x, w) ∧ it = 3 := by
+  have h : (match LGMRES.solve lgPrm stdIp id 0 A₀ P₀ (LGMRES.Work.fresh 2) #[1, 3] #[1, 0] with
+      | .ok (it, _, _, _) => decide (it = 3) | _ => false) = true := by decide +kernel
+  split at h
+  · exact ⟨_, _, _, _, ‹_›, of_decide_eq_true h⟩
+  · cases h
+
+end nonvacuous2
+
 end Amgcl.C01
